@@ -28,6 +28,11 @@ Theorem C03_make_context : mk_check_empty mk_empty_ops && mk_check_voidcall mk_v
 Proof. vm_compute; reflexivity. Qed.
 Print Assumptions C03_make_context.
 
+(* the custom-data carve-out of the current myth_create_ex_body *)
+Theorem C03_custom_data : cd_check cd_layout = true.
+Proof. vm_compute; reflexivity. Qed.
+Print Assumptions C03_custom_data.
+
 (* the soundness theorem instantiated on every pair of context-switch sites of the current tree *)
 Theorem C03_current_tree :
   forall (lblf : Z -> Z -> Z) (cb : Z -> state -> state) (hi : Z), abi_callee hi cb ->
@@ -60,7 +65,7 @@ Print Assumptions C03_current_tree.
 (* every suspending site of the current tree, its depth and context register; every site's kind *)
 Eval vm_compute in (map (fun s => (sid s, site_summary s)) sites).
 '''
-GEN_THEOREMS = ["C03_all_sites", "C03_make_context", "C03_current_tree"]
+GEN_THEOREMS = ["C03_all_sites", "C03_make_context", "C03_custom_data", "C03_current_tree"]
 
 
 def gen_dir(ctx):
@@ -93,6 +98,10 @@ Goal True. idtac "@@MK". Abort.
 Eval vm_compute in (mk_check_empty mk_empty_ops, mk_check_voidcall mk_voidcall_ops).
 Goal True. idtac "@@MKDIAG". Abort.
 Eval vm_compute in (map (fun x => (0, x)) (diag_mk false mk_empty_ops) ++ map (fun x => (1, x)) (diag_mk true mk_voidcall_ops)).
+Goal True. idtac "@@CD". Abort.
+Eval vm_compute in (cd_check cd_layout, cd_check cd_layout).
+Goal True. idtac "@@CDDIAG". Abort.
+Eval vm_compute in (map (fun x => (0, x)) (diag_cd cd_layout)).
 Goal True. idtac "@@END". Abort.
 '''
     open(os.path.join(d, "CtxAsmDiag.v"), "w").write(txt)
@@ -116,6 +125,9 @@ Goal True. idtac "@@END". Abort.
         res["mk"] = (m.group(1) == "true", m.group(2) == "true")
     for m in re.finditer(q, sec.get("MKDIAG", "")):
         res["mkdiag"].append((int(m.group(1)),) + tuple(int(x) for x in m.groups()[1:]))
+    m = re.search(r"\(\s*(true|false),\s*(true|false)\)", sec.get("CD", ""))
+    res["cd"] = (m.group(1) == "true") if m else None
+    res["cddiag"] = list(dict.fromkeys(tuple(int(x) for x in m.groups()[1:]) for m in re.finditer(q, sec.get("CDDIAG", ""))))
     return res, out
 
 
@@ -138,6 +150,16 @@ def describe_diag(e):
         return "stack top 0x%x gives an initial context with rsp = 0x%x outside (top-32, top]" % (a, b)
     if k == 8:
         return "stack top 0x%x: saved rsp 0x%x but the function address is stored at 0x%x" % (a, b, c)
+    if k == 10:
+        return ("custom_data_size = %d: the hint region [0x%x, 0x%x) starts %d bytes BELOW the stack top 0x%x handed to myth_make_context_*; "
+                "bytes [hint+0, hint+%d) overlap the thread's initial frames (which grow down from that top)"
+                % (a, b, b + a, c - b if c - b < a else (140737488347136 - b), c if c - b < a else 140737488347136, c - b))
+    if k == 11:
+        return "custom_data_size = %d: the hint region ends at 0x%x, above the block's size word at 0x%x" % (a, b, c)
+    if k == 12:
+        return "custom_data_size = %d: the stack top 0x%x handed to myth_make_context_* is %d mod 16" % (a, b, b % 16)
+    if k == 13:
+        return "custom_data_size = %d: the creation-time copy goes to 0x%x, length %d, not to the hint region" % (a, b, c)
     return "stack top 0x%x: no rsp stored" % a
 
 
@@ -177,6 +199,9 @@ def static_part(ctx, hand_ok):
         "asm_statements_touching_rsp_but_not_writing_it": tr["others"],
         "make_context_empty": {"source_statements": tr["mk"]["empty_src"], "ops": tr["mk"]["empty"]},
         "make_context_voidcall": {"source_statements": tr["mk"]["voidcall_src"], "ops": tr["mk"]["voidcall"]},
+        "custom_data_carve": {"interpretation": tr["carve"]["notes"], "not_understood": tr["carve"]["unknown"],
+                              "stack_top_empty": repr(tr["carve"]["empty"]), "stack_top_voidcall": repr(tr["carve"]["voidcall"]),
+                              "custom_data_ptr": repr(tr["carve"]["ptr"])},
         "generated_file": os.path.relpath(gpath, vlib.VERIF), "generated_file_sha256": vlib.sha(gen_txt),
         "extracted_data_sha256": T.digest(tr), "source_sha256": {os.path.relpath(k, vlib.REPO) if k.startswith(vlib.REPO) else k: v
                                                                  for k, v in tr["sources"].items()},
@@ -197,6 +222,7 @@ def static_part(ctx, hand_ok):
     rc, out = (1, "hand-written Coq development did not build") if not hand_ok else coqc(d, "CtxAsmGen.v")
     stm = {"C03_all_sites": "forallb ctx_check sites = true   (sites = the %d asm statements extracted on this run)" % len(sites),
            "C03_make_context": "mk_check_empty mk_empty_ops && mk_check_voidcall mk_voidcall_ops = true",
+           "C03_custom_data": "cd_check cd_layout = true   (cd_layout = linear forms extracted from myth_create_ex_body on this run)",
            "C03_current_tree": "conclusion of C03_ctx_check_sound for all A, B in sites"}
     if rc == 0:
         blocks = re.split(r"(?=Closed under the global context|Axioms:)", out)
@@ -274,7 +300,27 @@ def static_part(ctx, hand_ok):
             ctx.violation("checker", "%s: statement sequence not accepted by the checker (%s)" %
                           (which, "; ".join(tr["mk"]["empty_src" if not res["mk"][0] else "voidcall_src"])), body, found=False)
         nviol += 1
-    if not bad and mk_ok:
+    cd_ok = res.get("cd") is True
+    if cd_ok:
+        ctx.cov["theorems"]["C03_custom_data"]["status"] = "checked (in the diagnosis file)"
+        ctx.cov["discharged"] += 1
+    else:
+        cv = tr["carve"]
+        body = {"theorem_or_correspondence": "C03_custom_data (cd_check cd_layout = true)",
+                "extracted": {k: repr(cv[k]) for k in ("empty", "voidcall", "ptr", "copy_dst", "copy_len")},
+                "interpretation_of_myth_create_ex_body": cv["notes"], "not_understood": cv["unknown"],
+                "level": "model (linear forms of Ctx/CtxCheckModel.v evaluated at stack top 0x7fffffffe000)"}
+        dd = res.get("cddiag") or []
+        if dd:
+            body.update({"case": "myth_create_ex with attr.custom_data_size = %d (allocator stack top 0x7fffffffe000)" % dd[0][1],
+                         "observed": [describe_diag(e) for e in dd[:12]],
+                         "expected": "hint region [custom_data_ptr, +size) at or above the stack top the context is made on, at or below the size word"})
+            ctx.violation("checker", "custom-data carve-out of myth_create_ex_body: " + describe_diag(dd[0]), body, found=True)
+        else:
+            ctx.violation("checker", "custom-data carve-out of myth_create_ex_body not accepted by cd_check: " +
+                          ("; ".join(cv["unknown"]) or "shape of the linear forms"), body, found=False)
+        nviol += 1
+    if not bad and mk_ok and cd_ok:
         ctx.violation("proof", "build/C03/gen/CtxAsmGen.v does not compile although every site passes the checker",
                       {"theorem_or_correspondence": "C03_current_tree", "log": out[-3000:]}, found=False)
         nviol += 1
@@ -311,9 +357,15 @@ def oracle(case, rc, out):
         return "probe did not terminate"
     if rc < 0 or rc > 1 or not last.startswith(("ok", "FAIL")):
         return "probe crashed (exit status %d): %s" % (rc, out[-200:])
-    for k in ("reg_bad", "stack_bad", "cb_misaligned", "entry_misaligned"):
+    for k in ("hint_overlap", "reg_bad", "stack_bad", "cb_misaligned", "entry_misaligned", "hint_bad", "hint_local_bad"):
         if int(f.get(k, "1")) != 0:
-            return "%s=%s: %s" % (k, f.get(k), last.split("first=", 1)[-1])
+            extra = ""
+            if k.startswith("hint"):
+                ov = [l for l in out.split("\n") if l.startswith("hint ") and " overlap=0" not in l]
+                extra = " | " + " | ".join(ov[:3]) if ov else ""
+            return "%s=%s: %s%s" % (k, f.get(k), last.split("first=", 1)[-1], extra)
+    if int(f.get("hint_cases", "0")) != 8:
+        return "hint phase ran %s of 8 cases" % f.get("hint_cases")
     if int(f.get("ops", "-1")) != n * it:
         return "probe executed %s switching calls instead of %d" % (f.get("ops"), n * it)
     if int(f.get("switches_cb", "0")) <= 0 or int(f.get("entries", "0")) < n:
@@ -331,7 +383,36 @@ def gen_cases(ctx, n):
     return cases
 
 
-def dynamic_part(ctx):
+def py_mk_run(ops, stack):
+    """mirror of Ctx/CtxCheckModel.v : mk_run (used only to compare the extracted model with the measured layout)"""
+    tail, rsp = stack, None
+    for o in ops:
+        m = re.match(r"(\w+) \(?(-?\d+)\)?", o)
+        k, v = m.group(1), int(m.group(2))
+        if k == "MkSub":
+            tail = (tail - v) % 2 ** 64
+        elif k == "MkAdd":
+            tail = (tail + v) % 2 ** 64
+        elif k == "MkAnd":
+            tail &= v
+        elif k == "MkSetRsp":
+            rsp = (tail + v) % 2 ** 64
+    return rsp
+
+
+def layout_model(tr, order, size):
+    """(stk - custom_data_ptr, stk - initial rsp) predicted by the extracted model, for a 16-aligned stack top"""
+    cv = tr["carve"]
+    top = cv["empty" if order == "child" else "voidcall"]
+    if not cv["ok"] or top is None or cv["ptr"] is None:
+        return None
+    stk, r16 = 2 ** 40, (size + 15) // 16 * 16
+    ev = lambda l: l.s * stk + l.c + l.r * r16 + l.l * size
+    rsp = py_mk_run(tr["mk"]["empty" if order == "child" else "voidcall"], ev(top))
+    return (stk - ev(cv["ptr"]), stk - rsp if rsp is not None else None)
+
+
+def dynamic_part(ctx, tr):
     corpus = []
     cp = os.path.join(vlib.VERIF, "corpus", "C03", "cases.txt")
     if os.path.exists(cp):
@@ -339,7 +420,8 @@ def dynamic_part(ctx):
     cases = corpus + gen_cases(ctx, 10 if not ctx.thorough else 120)
     stats = {"cases": 0, "oracle_failures": 0, "by_workers": {}, "ops": 0, "callback_entries_sampled": 0,
              "thread_entries_sampled": 0, "migrations": 0, "children": 0, "library_opt": []}
-    failing = []
+    failing, layout_diffs = [], []
+    stats["hint_layout_samples"] = []
     for opt in (["-O0", "-O2"] if ctx.thorough else ["-O0"]):
         exe = build_probe(ctx, opt)
         stats["library_opt"].append(opt)
@@ -354,25 +436,39 @@ def dynamic_part(ctx):
                 stats[k] += int(f.get(fk, "0"))
             msg = oracle(c, rc, out)
             if msg:
-                failing.append((opt, c, out[-400:], msg))
+                failing.append((opt, c, out[-1500:], msg))
+            for hl in [l for l in out.split("\n") if l.startswith("hint ")]:
+                hf = dict(m.groups() for m in re.finditer(r"(\w+)=(-?\w+)", hl))
+                stats["hint_threads"] = stats.get("hint_threads", 0) + 1
+                pred = layout_model(tr, hf.get("order"), int(hf.get("size", "0")))
+                got = (int(hf.get("stk_minus_hint", "0")), int(hf.get("stk_minus_rsp0", "0")))
+                if pred is not None and pred != got:
+                    layout_diffs.append((opt, c, hl, "model (stk-hint, stk-rsp0) = %s, measured %s" % (pred, got)))
+                if len(stats["hint_layout_samples"]) < 8 and hl not in stats["hint_layout_samples"]:
+                    stats["hint_layout_samples"].append(hl)
             if len(ctx.cov["samples"]) < 8 and c == cases[len(corpus)]:
                 ctx.cov["samples"].append({"case": "workers nthreads iters seed = " + c, "library": opt, "impl": out[-300:]})
     stats["oracle_failures"] = len(failing)
-    stats["disagreements"] = len(failing)
+    stats["disagreements"] = len(layout_diffs)
     ctx.cov["correspondence"] = stats
     if failing:
         opt, c, out, msg = failing[0]
         ctx.violation("oracle", "probe thread on the real library (%s): %s" % (opt, msg),
                       {"case": c, "library_opt": opt, "observed": out, "level": "library",
-                       "expected": "reg_bad=0 stack_bad=0 cb_misaligned=0 entry_misaligned=0",
+                       "expected": "reg_bad=0 stack_bad=0 cb_misaligned=0 entry_misaligned=0 hint_overlap=0 hint_bad=0 hint_local_bad=0",
                        "all_failing": [(o, cc, m) for o, cc, _, m in failing[:20]]}, found=True)
+    elif layout_diffs:
+        opt, c, hl, msg = layout_diffs[0]
+        ctx.violation("correspondence", "custom-data layout: extracted model and library disagree (%d thread(s)); first: %s: %s" % (len(layout_diffs), hl, msg),
+                      {"theorem_or_correspondence": "correspondence cd_layout / mk ops (tools/translate_ctx.py) <-> myth_create_ex_body as executed",
+                       "case": c, "library_opt": opt, "observed": hl, "expected": msg, "all": layout_diffs[:20]}, found=False)
     return len(failing)
 
 
 def run(ctx):
     broken, log = ctx.prove("Properties_C03.v", "Properties_C03")
     nstat, tr = static_part(ctx, hand_ok=not broken)
-    ndyn = dynamic_part(ctx)
+    ndyn = dynamic_part(ctx, tr)
     ctx.cov["trusted_base"] += [
         "translator tools/translate_ctx.py (regex parser of gcc -S #APP blocks and of the asm statements / make_context bodies in gcc -E output; "
         "everything it extracted is listed under coverage.translator and in build/C03/gen/CtxAsmGen.v)",
@@ -390,6 +486,7 @@ def run(ctx):
     return ctx.finish(assumptions=[
         "callbacks and other threads obey abi_callee (preserve rsp and callee-saved registers, write nothing in [saved rsp, stack top) of a suspended thread)",
         "a thread's context record is not inside its own live stack region [rsp-depth, top)",
+        "custom data: the hint fits into the stack block (stack top after the carve-out >= 64); the allocator's stack top is block top - 16 with the size word at +8 (C12)",
         "rsp is 16-aligned and 8-aligned memory operands are used at every context-switch asm statement (compiler fact, sampled dynamically)",
         "the compiler honours the asm constraint/clobber lists; x87/MXCSR/vector state is outside the model (MYTH_SAVE_FPCSR=0)"])
 
@@ -416,6 +513,21 @@ def replay(ctx, path):
             if site_desc(st) == body.get("site"):
                 print("current tree at that site:", "; ".join(st["text"]))
                 break
+        return 0
+    if str(body.get("theorem_or_correspondence", "")).startswith(("C03_custom_data", "C03_make_context")):
+        print("recorded:")
+        for e in body.get("observed", []) or [body.get("what")]:
+            print("   ", e)
+        tr = T.translate(gen_dir(ctx), ["-O0"])
+        print("current tree (%s): myth_create_ex_body, case custom_data_size > 0, as interpreted by the translator:" % vlib.REPO)
+        for n in tr["carve"]["notes"] + ["NOT UNDERSTOOD: " + u for u in tr["carve"]["unknown"]]:
+            print("   ", n)
+        print("make_context ops:", tr["mk"]["empty"], tr["mk"]["voidcall"])
+        res, out = diag_run(gen_dir(ctx), T.coq_data(tr, "(* replay *)"), len(tr["sites"]))
+        if res:
+            print("model: cd_check =", res["cd"], " mk_check =", res["mk"])
+            for e in res["cddiag"][:8] + [x[1:] for x in res["mkdiag"][:8]]:
+                print("   ", describe_diag(e))
         return 0
     if "case" in body and "library_opt" in body:
         exe = build_probe(ctx, body["library_opt"])
